@@ -111,6 +111,8 @@ func Holders() []Holder {
 		def("tupleMember", func(s J) J { return J{"type": "array", "items": []any{J{"type": "string"}, s}} }),
 		def("additionalItems", func(s J) J { return J{"type": "array", "items": []any{J{"type": "string"}}, "additionalItems": s} }),
 		def("additionalProperties", func(s J) J { return J{"type": "object", "additionalProperties": s} }),
+		def("additionalItemsOfList", func(s J) J { return J{"type": "array", "items": J{"type": "string"}, "additionalItems": s} }),
+		def("additionalItemsAlone", func(s J) J { return J{"type": "array", "additionalItems": s} }),
 		def("allOfMember", func(s J) J {
 			return J{"allOf": []any{J{"type": "object", "properties": J{"x": J{"type": "string"}}}, s}}
 		}),
